@@ -266,6 +266,20 @@ pub fn run_c09(ctx: &mut Ctx) {
                 w_prev = wnow;
             } }
         }
+        // Request::close from whatever state the polls above left the request in — in particular right after a read that was
+        // polled once and abandoned while its reply flush was still parked on the output mutex.  No StreamWriter is alive here
+        // (each one opened above was dropped at once), so close() may fail with a transport condition but never with "writers".
+        if !errored && rng.chance(1, 2) {
+            let mut waits = 0;
+            for _ in 0..400 {
+                let o = ex(&mut log, &mut im, "a.close complete 7");   // what close() writes (pending replies, epilogue) is the model's to match, not part of the replies ledger above
+                if o.starts_with("err writers") { or.fail("Request::close failed with \"StreamWriter(s) not dropped\" although no StreamWriter is alive".into(), log.replay_block(), "C09:close-writers".into()); }
+                if o.starts_with("panic") { or.fail(format!("Request::close panicked: {o}"), log.replay_block(), "C09:close-panic".into()); }
+                if !o.starts_with("pending") { break; }
+                if field(&o, "ev").map_or(false, |e| e.ends_with(":W")) { waits += 1; if waits >= 2 { break; } }
+            }
+            or.count("closed_after_reads");
+        }
         // contents
         for (s, c) in &case.contents {
             let got = delivered.get(s).cloned().unwrap_or_default();
